@@ -60,7 +60,7 @@ def _design_spur(cfg):
     return core.run_tlc(mod, cfgf, workers=3, timeout=900, cwd=d, coverage=False)
 
 
-def run_plan(ctx, props, plan, quick, extra_random=None, lzip_scan=False):
+def run_plan(ctx, props, plan, quick, extra_random=None, lzip_scan=False, workqueue=False):
     run = mtcommon.MtRun(ctx, props)
     seed = ctx.seed
     rnd = random.Random(seed)
@@ -197,6 +197,8 @@ def run_plan(ctx, props, plan, quick, extra_random=None, lzip_scan=False):
 
     if lzip_scan:
         lzip_scan_stage(ctx, run, quick)
+    if workqueue and not quick:
+        workqueue_inductive(ctx)
     # ---------------- stage 3: TLC validates recorded traces against the as-built design
     t0 = time.time()
     groups = {}
@@ -366,3 +368,23 @@ def lzip_scan_stage(ctx, run, quick):
         ctx.note_drift(f"Trace_LzipScan rejected the observed member scans after event {reached} of {total}: "
                        f"{events[reached] if reached is not None and reached < len(events) else '?'}")
     log(f"[lzip-scan] {len(scns)} damaged files scanned; trace {'accepted' if ok else 'REJECTED'} ({total} events)")
+
+
+def workqueue_inductive(ctx):
+    """Unbounded part of C10 (thorough tier): the queue protocol in isolation (spec/WorkQueue.tla, same grain as the
+    queue actions of MtReader/MtWriter, queue content abstracted to its length) with an inductive invariant
+    discharged by Apalache: base case (Init => IndInv) and step (IndInv /\\ Next => IndInv') for 3 workers and
+    unbounded queue length / number of pushes / number of steps. The regressed variant (close() without the mutex)
+    must fail, otherwise the proof would be vacuous."""
+    t0 = time.time()
+    res = {}
+    for name, cinit, init, length, want in (
+            ("base", "ConstInit", "Init", 0, True), ("step", "ConstInit", "IndInit", 1, True),
+            ("regressed-step", "ConstInitRegressed", "IndInit", 1, False)):
+        ok, outcome = core.run_apalache("WorkQueue", [f"--cinit={cinit}", f"--init={init}", "--inv=IndInv", f"--length={length}"])
+        res[name] = outcome
+        if ok != want:
+            raise ToolError(f"WorkQueue inductive invariant: obligation {name} gave {outcome}")
+    ctx.cov["apalache_inductive_invariant"] = {"module": "WorkQueue.tla", "invariant": "IndInv (implies NoLostWakeup)",
+                                               "obligations": res, "workers": 3, "wall_s": round(time.time() - t0, 1)}
+    log(f"[apalache] WorkQueue IndInv: {res} in {time.time()-t0:.1f}s")
